@@ -13,6 +13,8 @@ import OpmVerif.Proofs.UdqState
 import OpmVerif.Proofs.UdqType
 import OpmVerif.Proofs.UdqLex
 import OpmVerif.Proofs.UdqUnion
+import OpmVerif.Proofs.UdqMatch
+import OpmVerif.Proofs.UdqSort
 
 namespace OpmVerif.Props.C17
 open OpmVerif.Udq OpmVerif.Gen.UdqEnums
@@ -397,5 +399,96 @@ example : ∀ p ∈ (⟨.well, [("P1", none), ("P2", none)]⟩ : USet ℚ).vals,
 /-- the seeded defect in numbers: with the positive constant `e = 1/2` standing in for an
 undefined operand, `max (-5) e = e ≠ -5` -/
 example : max (-5 : ℚ) (1/2) ≠ -5 := by norm_num
+
+/-! ### fourth round: name matching and sort ranks inside the model -/
+
+/-- `Opm::shmatch` (fnmatch, flags 0) on the `*` / `?` / literal subset: a pattern without `*` and
+`?` matches exactly itself — every pattern, every name.  (This is also what makes
+`UDQSet::assign(wgname, …)`, which uses the WELL NAME as a pattern, hit exactly that well.) -/
+theorem match_literal (p : List Char) (h : literal p) (s : List Char) : glob p s = decide (p = s) :=
+  glob_literal p h s
+
+/-- `*` matches every name -/
+theorem match_star (s : List Char) : glob ['*'] s = true := glob_star s
+
+/-- `<literal>*` matches exactly the names that begin with the literal (`'P*'`) -/
+theorem match_prefix_star (p : List Char) (h : literal p) (s : List Char) :
+    glob (p ++ ['*']) s = p.isPrefixOf s := glob_literal_star p h s
+
+/-- `?` consumes exactly one character, `*` nothing or one more: the recursion equations of fnmatch -/
+theorem match_question (p : List Char) (d : Char) (s : List Char) : glob ('?' :: p) (d :: s) = glob p s :=
+  glob_question p d s
+theorem match_star_step (p : List Char) (d : Char) (s : List Char) :
+    glob ('*' :: p) (d :: s) = (glob p (d :: s) || glob ('*' :: p) s) := glob_star_cons p d s
+
+/-- `WellMatcher::wells(pattern)` for a wildcard pattern that is neither a well list (`*…`) nor
+escaped: exactly the wells of the schedule the pattern matches, in schedule order; entering the
+wells in another order permutes the answer and nothing else. -/
+theorem matcher_wildcard (m : Matcher) (c : Char) (rest : List Char) (pattern : String)
+    (hp : pattern.toList = c :: rest) (hc : c ≠ '*' ∧ c ≠ '\\') (hs : (c :: rest).contains '*' = true) :
+    m.matching pattern = .ok (plainMatch m.wells (c :: rest)) ∧
+    (∀ w, w ∈ plainMatch m.wells (c :: rest) ↔ w ∈ m.wells ∧ glob (c :: rest) w.toList = true) ∧
+    (plainMatch m.wells (c :: rest)).Sublist m.wells ∧
+    (∀ wells', m.wells.Perm wells' → (plainMatch m.wells (c :: rest)).Perm (plainMatch wells' (c :: rest))) :=
+  ⟨matching_wildcard m c rest pattern hp hc hs, mem_plainMatch _ _, plainMatch_sublist _ _,
+   fun _ h => plainMatch_perm _ _ h _⟩
+
+/-- The set `WOPR 'pattern'` as `eval_well_expression` builds it (`UDQSet::wells(all)` + one
+`assign(wname, value)` — by PATTERN — per matching well): with literal well names it has exactly one
+entry per well of the schedule, in schedule order, carrying the well's finite value where the
+pattern matches and undefined elsewhere.  Every pattern, every well list, every value source. -/
+theorem well_set_of_pattern {α : Type} (F : Fns α) (wells : List String) (patt : List Char) (get : String → Option α)
+    (hlit : ∀ w ∈ wells, literal w.toList) :
+    wellSetBy F .well wells (plainMatch wells patt) get =
+      .ok ⟨.well, wells.map fun w => (w, if glob patt w.toList then (get w).bind (fin F) else none)⟩ :=
+  wellSet_of_pattern F wells patt get hlit
+
+/-- the same for any selection out of the schedule's wells (a well list, `*` = all wells) -/
+theorem well_set_of_selection {α : Type} (F : Fns α) (vt : VT) (all sel : List String) (get : String → Option α)
+    (hlit : ∀ w ∈ all, literal w.toList) (hsub : ∀ s ∈ sel, s ∈ all) :
+    wellSetBy F vt all sel get = .ok (wellSetOf F vt all sel get) :=
+  wellSetBy_spec F vt all sel get hlit hsub
+
+/-- the elements of `WOPR 'pattern'` do not depend on the order of the well list -/
+theorem well_set_order_independent {α : Type} (F : Fns α) (wells wells' : List String) (patt : List Char)
+    (get : String → Option α) (hlit : ∀ w ∈ wells, literal w.toList) (hperm : wells.Perm wells') :
+    ∃ u u', wellSetBy F .well wells (plainMatch wells patt) get = .ok u ∧
+      wellSetBy F .well wells' (plainMatch wells' patt) get = .ok u' ∧ u.vals.Perm u'.vals :=
+  wellSet_of_pattern_order_independent F wells wells' patt get hlit hperm
+
+/-- SORTA / SORTD (`sortOrder`): for EVERY comparison and every set the ranks handed to the defined
+entries are a permutation of `1..n` (`n` = number of defined entries) … -/
+theorem sort_ranks_permutation {α : Type} (before : α → α → Bool) (vs : List (Option α)) :
+    ((sortRanks before vs).filterMap id).Perm (List.range' 1 (vs.filterMap id).length) :=
+  sortRanks_perm before vs
+
+/-- … an entry has a rank exactly when it is defined, and the result set keeps type and names. -/
+theorem sort_ranks_defined {α : Type} (before : α → α → Bool) (vs : List (Option α)) :
+    (sortRanks before vs).map Option.isSome = vs.map Option.isSome ∧ (sortRanks before vs).length = vs.length :=
+  ⟨sortRanks_defined before vs, sortRanks_length before vs⟩
+theorem sort_set_shape {α : Type} (F : Fns α) (before : α → α → Bool) (u : USet α) :
+    (sortSet F before u).vt = u.vt ∧ (sortSet F before u).vals.map (·.1) = u.vals.map (·.1) :=
+  sortSet_names F before u
+
+/-! non-vacuity -/
+example : literal "P1".toList := by decide
+example : glob "P*1".toList "PB31".toList = true ∧ glob "P*1".toList "PB3".toList = false
+    ∧ glob "P?*".toList "P".toList = false ∧ glob "?*".toList "I".toList = true := by decide
+example : (⟨["P2", "I1", "P1"], none⟩ : Matcher).matching "P*" = .ok ["P2", "P1"] := by decide
+example : (⟨["P2", "I1", "P1"], some [("*L1", ["P1", "P2"]), ("*L2", ["I1"])]⟩ : Matcher).matching "*L1" = .ok ["P2", "P1"]
+    ∧ (⟨["P2", "I1", "P1"], some [("*L1", ["P1", "P2"]), ("*L2", ["I1"])]⟩ : Matcher).matching "*L*" = .ok ["P2", "I1", "P1"]
+    ∧ (⟨["P2", "I1", "P1"], some [("*L1", ["P1", "NOWELL"])]⟩ : Matcher).matching "*L1" = .error () := by decide
+example : "P*".toList = 'P' :: ['*'] ∧ ('P' ≠ '*' ∧ 'P' ≠ '\\') ∧ ('P' :: ['*']).contains '*' = true := by decide
+example : ∀ w ∈ ["P2", "I1", "P1"], literal w.toList := by decide
+example : ["P2", "I1", "P1"].Perm ["P1", "P2", "I1"] := by decide
+/-- a set with ties and undefined entries: ranks 1..4 over the four defined ones, stable on the tie -/
+example : sortRanks (fun (a b : Nat) => decide (a < b)) [some 5, none, some 2, some 5, some 1]
+    = [some 3, none, some 2, some 4, some 1] := by decide
+example : sortRanks (fun (a b : Nat) => decide (b < a)) [some 5, none, some 2, some 5, some 1]
+    = [some 1, none, some 3, some 2, some 4] := by decide
+example : isSortRank (fun (a b : Nat) => decide (a < b)) [some 5, none, some 2, some 5, some 1]
+      [some 4, none, some 2, some 3, some 1] = true   -- the other admissible tie order
+    ∧ isSortRank (fun (a b : Nat) => decide (a < b)) [some 5, none, some 2, some 5, some 1]
+      [some 4, none, some 1, some 3, some 2] = false := by decide
 
 end OpmVerif.Props.C17
